@@ -237,6 +237,46 @@ def d2_reachability(ctx: Ctx):
     ctx.check('return _ReachabilityCtx(True)' in norm(df, 400), REACH, df, '_ReachabilityCtx.default', 'the function entry is reachable', 'changed')
 
 
+def d4_callee_names(ctx: Ctx):
+    """Under @fpy a name in call position that the checker has never heard of is taken for a name of the enclosing
+    Python scope and let through.  A name the function binds itself is not one of those: it is a variable, and the call
+    reads it.  (a) `_visit_call` is evaluated, from its source, on a callee name that is bound on every path / on some
+    paths / not at all, with unknown names tolerated or not: the definedness check is skipped only for a name that is
+    not in the environment.  (b) the names captured from the defining scope never include one of the function's own
+    locals (`inspect.getclosurevars` lists attribute names too: the `round` of `fp.round`)."""
+    from ..cfg import CFG, find_path
+    from ..minipy import Interp, Obj
+    fn = ctx.fn(SYNTAX, 'SyntaxCheckInstance._visit_call')
+    meths = {n: f for n, (_, _, f) in ctx.repo.methods(SYNTAX, 'SyntaxCheckInstance', inherited=False).items()}
+    rows = 0
+    for tolerant in (True, False):
+        for state in ('bound', 'partial', 'absent'):
+            seen = []
+            env = {'g': state == 'bound'} if state != 'absent' else {}
+            me = Obj('SyntaxCheckInstance', ignore_unknown=tolerant)
+            it = Interp({}, meths, self_obj=me, is_a=lambda k, c: k == c,
+                        overrides={'self._mark_use': lambda name, e, ignore_missing=False: seen.append(ignore_missing), 'self._visit_expr': lambda *a: None,
+                                   'self._visit_attribute': lambda *a: None})
+            it.call_function(fn, [Obj('Call', func=Obj('Var', name='g'), args=[], kwargs=[]), Obj('_Ctx', env=env)], bound_self=True)
+            rows += 1
+            want_skip = tolerant and state == 'absent'
+            ctx.check(seen == [want_skip], SYNTAX, fn, 'SyntaxCheckInstance._visit_call',
+                      f'callee name {state} in the environment, unknown names {"tolerated" if tolerant else "refused"}: the definedness check is {"skipped" if want_skip else "made"}',
+                      f'_mark_use called with ignore_missing={seen}: `if c > 0: g = x` followed by `return g(x)` is accepted and every call fails looking up `g`')
+    if rows < 6:
+        raise ShapeError('callee table shrank')
+    q = '_apply_fpy_decorator'
+    dfn = ctx.fn(DECORATOR, q)
+    cfg = CFG(dfn)
+    minus = [n for n in cfg.nodes_of('stmt') if isinstance(n.ast, ast.Assign) and 'co_varnames' in norm(n.ast) and isinstance(n.ast.value, ast.BinOp) and isinstance(n.ast.value.op, ast.Sub)
+             and norm(n.ast.targets[0]) == norm(n.ast.value.left)]
+    uses = [n for n in cfg.nodes_of('stmt') if isinstance(n.ast, ast.Assign) and norm(n.ast.targets[0]) == 'free_vars' and minus and norm(minus[0].ast.targets[0]) in norm(n.ast.value)]
+    ok = bool(minus) and bool(uses) and all(find_path(cfg, cfg.entry, u, avoid=lambda n: n in minus) is None for u in uses)
+    ctx.check(ok, DECORATOR, dfn, q, 'the captured names handed to the checker exclude the function\'s own locals (code.co_varnames)',
+              'an attribute name such as the `round` of `fp.round(x)` counts as captured and is bound on entry: `if c > 0: round = x` then `fp.round(x) + round` is accepted '
+              'and raises UnboundLocalError when the branch is not taken')
+
+
 def d3_terminated_arms(ctx: Ctx):
     """SyntaxCheck lets the environment of a terminated arm drop out of the merge after an if/else (T1: merge with a
     terminated environment is the other one; D1: `with` hands on its body's environment, a return terminates).  The
@@ -295,6 +335,7 @@ RULES = [
     Rule('C15.T1', '_Env.merge / extend tables', t1_env_merge, 6, 'T'),
     Rule('C15.T2', 'two spellings are two identifiers: the base / count split of a name is undone by printing it', identifier_spelling_rule, 3, 'T'),
     Rule('C15.D2', 'Reachability transfer functions and error checks', d2_reachability, 16, 'D,T'),
+    Rule('C15.D4', 'a callee name the function binds is checked like a variable; captured names never include the function\'s own locals', d4_callee_names, 7, 'D,P'),
     Rule('C15.D3', 'an arm the front end takes as terminated (return, if/else of those, `with` around one) is dropped from the merge of definitions', d3_terminated_arms, 1, 'D'),
     Rule('C15.P1', '@fpy runs SyntaxCheck and Reachability (both checks) on every path before Function(ast)', p1_decorator_pipeline, 3, 'P'),
 ]
@@ -302,6 +343,9 @@ RULES = [
 from ..selftest import Mutant  # noqa: E402
 
 MUTANTS = [
+    Mutant('locally-bound-callee-unchecked', SYNTAX, "                self._mark_use(e.func.name, ctx.env, ignore_missing=self.ignore_unknown and not local)", "                self._mark_use(e.func.name, ctx.env, ignore_missing=self.ignore_unknown)", 'C15.D4',
+           'finding F83 before its repair'),
+    Mutant('attribute-names-captured', DECORATOR, "    cfree_vars = cfree_vars - set(func.__code__.co_varnames)\n", "", 'C15.D4', 'finding F84 before its repair'),
     Mutant('with-around-a-return-falls-through', 'fpy2/analysis/reaching_defs.py', "        case ContextStmt(body=body):\n            return _always_returns(body)\n", "", 'C15.D3',
            'seeded change C15d: the program is accepted and every call raises KeyError'),
     Mutant('nested-if-of-returns-falls-through', 'fpy2/analysis/reaching_defs.py', "        case IfStmt(ift=ift, iff=iff):\n            return _always_returns(ift) and _always_returns(iff)\n", "", 'C15.D3'),
